@@ -339,7 +339,36 @@ def run(verdict, tier):
         except Exception as e:
             verdict.violation("C20.unknown_rejected", site="BADS.__init__", where=f"option={bad}",
                               detail={"error": repr(e)[:100]})
+    # one options dict used for two constructions: the first must not change what the second sees, whether the
+    # constructor accepts the dict or rejects it (mode options left unset / given in the "alternative" spellings)
+    reuse = [{"specify_target_noise": True}, {"uncertainty_handling": True}, {"uncertainty_handling": False},
+             {"specify_target_noise": True, "uncertainty_handling": True}, {"stobads": True}, {"noise_size": 0.5},
+             {"specify_target_noise": False}, {"max_fun_evals": 30, "fun_eval_start": 4}, {"tol_fun": 1e-2}]
+    n_reuse = 0
+    for user in reuse:
+        d = dict(user)
+        d["display"] = "off"
+        before = {k: snap(v) for k, v in d.items()}
+        outs = []
+        for rep_ in range(2):
+            try:
+                bb = BADS(lambda x: 0.0, np.zeros((1, 2)), np.full((1, 2), -4.0), np.full((1, 2), 4.0),
+                          np.full((1, 2), -2.0), np.full((1, 2), 2.0), options=d)
+                outs.append(("ok", {k: snap(bb.options[k]) for k in ("uncertainty_handling", "specify_target_noise", "stobads", "noise_size", "tol_fun")}))
+            except ValueError as e:
+                outs.append(("ValueError", str(e)[:60]))
+            except Exception as e:
+                outs.append(("other:" + type(e).__name__, str(e)[:60]))
+        n_reuse += 1
+        now = {k: snap(v) for k, v in d.items()}
+        if sorted(d) != sorted(before) or now != before:
+            verdict.violation("C20.caller_dict_untouched", site="BADS.__init__:dict_reuse", where=f"options={user}",
+                              detail={"before": sorted(before), "after": sorted(d)})
+        if outs[0] != outs[1]:
+            verdict.violation("C20.no_leak_between_instances", site="BADS.__init__:dict_reuse", where=f"options={user}",
+                              detail={"first": repr(outs[0])[:120], "second": repr(outs[1])[:120]})
     verdict.coverage.update({
+        "options_dict_reuse_cases": n_reuse,
         "options_states": r.distinct_states, "options_schedules_in_model": len(hists),
         "options_schedules_replayed": len(use), "options_names_in_ini_files": len(names),
         "options_name_cases": len(jobs), "options_name_outcomes": res,
